@@ -162,7 +162,7 @@ PROPS['C11'] = dict(
     rule=('evaluations = table entries / lookups compared. Every enumerated entry is distinct by construction (counted in classes c11:slider_entries_enumerated); '
           'distinct_nontrivial counts the distinct generated (square, full occupancy) pairs on top of the enumeration.'),
     assumptions=['ray walk on an 8x8 coordinate grid is the definition of slider attacks'],
-    quick=dict(cases=300, shards=4, scale=3, exhaustive=True, gates={'c11:slider_entries_enumerated': 4 * 107648, 'c11:leaper_pawn_line_tables_enumerated': 4}, min_nontrivial=10000),
+    quick=dict(cases=320, shards=4, scale=4, exhaustive=True, gates={'c11:slider_entries_enumerated': 4 * 107648, 'c11:leaper_pawn_line_tables_enumerated': 4, 'c11:re_enumerations_after_engine_activity': 16}, min_nontrivial=10000),
     thorough=dict(cases=20000, shards=16, scale=3, exhaustive=True, gates={'c11:slider_entries_enumerated': 16 * 107648}, min_nontrivial=1000000),
 )
 PROPS['C12'] = dict(
@@ -272,7 +272,7 @@ PROPS['C06'] = dict(
     level_note='Only interleavings expressible through the hook points are explored; wall-clock waits are safety nets (expiry = inconclusive, counted), never the oracle. Other ThreadSanitizer reports are listed in evidence but are not violations of this property.',
     rule='evaluations = schedules executed. Non-trivial = distinct (park point, k, position, go form) where stop was delivered to a parked search thread or after the search had finished; race-half sessions are reported under coverage.race_half.',
     assumptions=['the hook callback runs on the search thread at the documented points (engine/verif_hooks.h)'],
-    run_fn='run_c06', replay_fn='replay_c06',
+    run_fn='run_c06', replay_fn='replay_c06', timing_signatures=['stop:lost:free_running'],
     quick=dict(cases=40, shards=16, scale=3, race_shards=4, race_cases=4, race_min_sessions=12,
                gates={'c06:stop_delivered_at_thread_start': 10, 'c06:stop_delivered_at_go_entry': 10, 'c06:stop_delivered_at_go_after_init': 10, 'c06:stop_delivered_at_go_after_reset': 10,
                       'c06:stop_delivered_at_node_visit': 40, 'c06:stop_delivered_at_iteration_end': 4, 'c06:stop_delivered_at_before_bestmove': 3, 'c06:explosive_position': 40, 'c06:free_running_trial': 1000}, min_nontrivial=150),
